@@ -228,6 +228,52 @@ def solver_events(model, rep):
     rep.analysed['solver_values_examined'] = n
 
 
+def tolerance_side(model, rep):
+    """The comparison tolerance is absolute in the LEFT operand's unit (known finding K2 of C05).  Until that is
+    repaired, an equality test between a caller-supplied quantity and a library constant is unit-independent only with
+    the constant on the left (`x in CONSTANTS` compares `constant == x`; `x == constant` measures the tolerance in the
+    caller's unit: 14.5 deg written as 52200 arcsec is off by 7e-12 arcsec and is rejected)."""
+    n = 0
+    bad = []
+    for mod, tree in sorted(model.trees.items()):
+        if mod in EXCLUDED or '/units/' in mod:
+            continue
+        consts = {k for k in model.module_consts.get(mod, {}) if k.isupper()}
+        imported = {a.asname or a.name for nd in ast.walk(tree) if isinstance(nd, ast.ImportFrom) for a in nd.names if (a.asname or a.name).isupper()}
+        consts |= imported
+        for fn in ast.walk(tree):
+            if not isinstance(fn, ast.FunctionDef):
+                continue
+            elems = set()       # names iterating over a constant list
+            for nd in ast.walk(fn):
+                gens = nd.generators if isinstance(nd, (ast.ListComp, ast.GeneratorExp, ast.SetComp)) else []
+                for g in gens:
+                    if isinstance(g.iter, ast.Name) and g.iter.id in consts and isinstance(g.target, ast.Name):
+                        elems.add(g.target.id)
+                if isinstance(nd, ast.For) and isinstance(nd.iter, ast.Name) and nd.iter.id in consts and isinstance(nd.target, ast.Name):
+                    elems.add(nd.target.id)
+
+            def is_const(e):
+                if isinstance(e, ast.Name) and (e.id in consts or e.id in elems):
+                    return True
+                return isinstance(e, ast.Call) and isinstance(e.func, ast.Name) and model.is_quantity(e.func.id) \
+                    and all(isinstance(a, ast.Constant) for a in list(e.args) + [k.value for k in e.keywords])
+            for nd in ast.walk(fn):
+                if isinstance(nd, ast.Compare) and len(nd.ops) == 1 and isinstance(nd.ops[0], (ast.Eq, ast.NotEq)):
+                    l, r = nd.left, nd.comparators[0]
+                    if is_const(r) and not is_const(l) and not isinstance(l, ast.Constant):
+                        n += 1
+                        bad.append((f'{mod}:{nd.lineno}', fn.name, ast.unparse(nd)[:70]))
+    for loc, fname, text in bad:
+        rep.violation('C07.tolerance-side', fname, f'`{text}` compares a caller-supplied quantity with a library constant with the constant on the '
+                      f'right: the tolerance is then measured in the caller\'s unit and a valid value written in a fine unit is rejected', loc)
+    if not bad:
+        rep.holds('C07.tolerance-side', 'package', 'every equality with a library constant has the constant on the left (or uses `in`)')
+
+
+LOOKUP_METHODS = {'searchsorted', 'index', 'get', 'isin', 'get_loc', 'bisect', 'bisect_left', 'bisect_right', 'count', 'pop'}
+
+
 def exact_keys(model, rep):
     n = 0
     for mod, tree in sorted(model.trees.items()):
@@ -236,8 +282,37 @@ def exact_keys(model, rep):
         for fn in ast.walk(tree):
             if not isinstance(fn, (ast.FunctionDef,)):
                 continue
+            # converted raw numbers bound to locals (one function, transitive) are keys too
+            tainted = set()
+            changed = True
+
+            def raw(e):
+                for a in ast.walk(e):
+                    if isinstance(a, ast.Attribute) and a.attr == 'value' and isinstance(a.value, ast.Call) \
+                            and isinstance(a.value.func, ast.Attribute) and a.value.func.attr == 'to':
+                        return True
+                    if isinstance(a, ast.Name) and a.id in tainted:
+                        return True
+                return False
+            while changed:
+                changed = False
+                for node in ast.walk(fn):
+                    if isinstance(node, ast.Assign) and len(node.targets) == 1 and isinstance(node.targets[0], ast.Name) \
+                            and node.targets[0].id not in tainted and raw(node.value) \
+                            and not (isinstance(node.value, ast.Call) and ast.unparse(node.value.func).endswith(('interp1d', 'Angle', 'sqrt'))):
+                        # only plain numeric expressions propagate (rounding included); results of lookups do not
+                        if not any(isinstance(x, ast.Subscript) for x in ast.walk(node.value)):
+                            tainted.add(node.targets[0].id)
+                            changed = True
             for node in ast.walk(fn):
                 keys = []
+                if isinstance(node, ast.Call) and isinstance(node.func, ast.Attribute) and node.func.attr in LOOKUP_METHODS:
+                    for k in list(node.args) + [kw.value for kw in node.keywords]:
+                        if raw(k):
+                            n += 1
+                            rep.violation('C07.exact-key', f'{fn.name}', f'`{ast.unparse(node)[:80]}` looks a converted raw number up in a table '
+                                          f'({node.func.attr}): a valid quantity expressed in another unit converts to a neighbouring float '
+                                          f'(Angle(14.5, "deg").to("rad") gives 14.500000000000002 deg) and lands on another row', f'{mod}:{node.lineno}')
                 if isinstance(node, ast.Subscript):
                     # x[key], df.loc[key, col]; list indexing by an integer is not a value key
                     sl = node.slice
@@ -246,8 +321,9 @@ def exact_keys(model, rep):
                     keys = [node.left] + list(node.comparators)
                 for k in keys:
                     for a in ast.walk(k):
-                        if isinstance(a, ast.Attribute) and a.attr == 'value' and isinstance(a.value, ast.Call) \
-                                and isinstance(a.value.func, ast.Attribute) and a.value.func.attr == 'to':
+                        if (isinstance(a, ast.Attribute) and a.attr == 'value' and isinstance(a.value, ast.Call)
+                                and isinstance(a.value.func, ast.Attribute) and a.value.func.attr == 'to') or \
+                                (isinstance(a, ast.Name) and a.id in tainted and not isinstance(node, ast.Compare)):
                             n += 1
                             rep.violation('C07.exact-key', f'{fn.name}', f'`{ast.unparse(k)[:80]}` - a converted raw number - is used as an '
                                           f'exact-match key: a valid quantity expressed in another unit converts to a neighbouring float '
@@ -315,8 +391,21 @@ def check(model, rep):
     tables = UnitTables(model)
     check_tables(model, rep, tables, R='C07.dep.table')
     check_to(model, rep, SX(model, tables), tables, R='C07.dep.to')
-    # snapshot/export convert recorded samples to caller-chosen units: the pairing and conversion rules of C18
+    # decisions are taken by the comparison dunders and values are combined by the arithmetic dunders: their predicates
+    # (C05.cmp) and the cancellation of unit factors in their results (C06, only instances where a unit factor survives)
     from sa.core import Report
+    from checks import c05 as _c05, c06 as _c06
+    dep = Report('C05')
+    _c05.check_cmp(model, dep, SX(model, tables), tables)
+    rep.absorb(dep, {'C05.cmp': 'C07.dep.cmp'})
+    dep = Report('C06')
+    _c06.check(model, dep)
+    for i in dep.instances:
+        if i.rule == 'C06.si-semantics' and i.status == 'VIOLATION' and i.extra.get('unit_dependent'):
+            rep.violation('C07.dep.arith', i.construct, i.detail, i.loc)
+    rep.holds('C07.dep.arith', 'operators', 'no operator result keeps a unit factor (C06 instances re-read)')
+    tolerance_side(model, rep)
+    # snapshot/export convert recorded samples to caller-chosen units: the pairing and conversion rules of C18
     from checks import c18
     dep = Report('C18')
     c18.check(model, dep)
